@@ -305,5 +305,146 @@ theorem new_radians_total_neg {x : F} (hx : Fin x) (hx0 : val x < 0) (hb : -(2 ^
     rw [e14, abs_lt]
     constructor <;> linarith [hsnap.1, hsnap.2, hacc.1, hacc.2]
 
+/-- **`Angle::new(p, d)` with `p/d < 0` (general path) in rounded arithmetic**: canonical, and its float total is `X = p·π_f/d` plus a
+    whole number `n` of turns, to within the `1e-10` snap plus `(14·|X| + 46)·2⁻⁵³` — the same direction as `X` modulo `2π_f`, as a
+    forward rotation (the total is non-negative by canonicity).  The exact fast path (`d = 2`, integral `p`) is `new_negInt_two`. -/
+theorem new_total_neg_float {p d : F} (hp : Fin p) (hd : Fin d) (hpb : |val p| ≤ 10 ^ 200)
+    (hdl : 1 / 10 ^ 200 ≤ |val d|) (hq : |val p * piV F / val d| ≤ 2 ^ 42) (hX0' : val p * piV F / val d < 0)
+    (hfast : (feq d two && feq (FloatLike.fract p) zero) = false) :
+    (Angle.new p d).Inv ∧
+    ∃ n : ℕ, |Tq (Angle.new p d) - (val p * piV F / val d + (n : ℝ) * (4 * val (qp : F)))|
+      < val (e10 : F) + (14 * |val p * piV F / val d| + 46) * (1 / 2 ^ 53) + 1 / 10 ^ 300 := by
+  generalize hXdef : val p * piV F / val d = X at hq hX0' ⊢
+  have hX0 : X < 0 := hX0'
+  have hp3 := piV_gt3 (F := F); have hp4 := piV_lt4 (F := F)
+  have hinv : (Angle.new p d).Inv := Angle.new_inv hp hd hpb hdl (by rw [hXdef]; exact hq)
+  refine ⟨hinv, ?_⟩
+  have hacc := rawTotal_accuracy hp hd hpb hdl (by rw [hXdef]; exact hq)
+  rw [hXdef] at hacc
+  obtain ⟨hfraw, hrawb⟩ := newRawTotal_spec hp hd hpb hdl (by rw [hXdef]; exact hq)
+  obtain ⟨hf, h0, h1⟩ := newTotal_spec hp hd hpb hdl (by rw [hXdef]; exact hq)
+  have hcore := newCore_spec (newTotal p d) hf h0 h1
+  dsimp only at hcore
+  have hr : Angle.new p d = normalizeBoundaries ⟨fmod (newTotal p d) qp,
+      toUsize (FloatLike.round (fdiv (fsub (newTotal p d) (fmod (newTotal p d) qp)) qp))⟩ := by
+    unfold Angle.new newGeneral
+    simp [hfast]
+  rw [← hr] at hcore
+  have he := val_e10_pos (F := F)
+  -- the result's total is the normalised total up to the snap
+  have hsnap : |Tq (Angle.new p d) - val (newTotal p d)| < val (e10 : F) := by
+    unfold Tq
+    rcases hcore.2 with ⟨_, hdec⟩ | ⟨_, hrem, hsn⟩
+    · rw [hdec, sub_self, abs_zero]; exact he
+    · rw [hrem, add_zero]; exact hsn
+  -- tiny constants
+  obtain ⟨ε, hε⟩ : ∃ ε : ℝ, ε = 1 / 2 ^ 53 := ⟨_, rfl⟩
+  have hε0 : 0 < ε := by rw [hε]; positivity
+  have hε1 : ε ≤ 1 / 10 ^ 15 := by rw [hε]; norm_num
+  have e8 : ∀ z : ℝ, z * (8 / 2 ^ 53) = z * (8 * ε) := fun z => by rw [hε]; ring
+  rw [e8] at hacc
+  obtain ⟨τ, hτ⟩ : ∃ τ : ℝ, τ = 1 / 2 ^ 1075 := ⟨_, rfl⟩
+  have hτ0 : 0 < τ := by rw [hτ]; positivity
+  have hτ300 : τ ≤ 1 / 10 ^ 300 := by rw [hτ]; exact tiny_1075_300
+  have h32 : (1:ℝ) / 2 ^ 1070 = 32 * τ := by
+    rw [hτ, show (1075:ℕ) = 1070 + 5 by norm_num, pow_add]; field_simp; norm_num
+  rw [h32] at hacc
+  have h42τ : 42 * τ ≤ 1 / 10 ^ 300 := by
+    rw [hτ]
+    have : (42:ℝ) * (1 / 2 ^ 1075) = 42 / 2 ^ 6 * (1 / 2 ^ 1069) := by
+      rw [show (1075:ℕ) = 6 + 1069 by norm_num, pow_add]; field_simp
+    rw [this]
+    have h1069 : (1:ℝ) / 2 ^ 1069 ≤ 1 / 10 ^ 300 := by
+      apply one_div_le_one_div_of_le (by positivity)
+      calc (10:ℝ) ^ 300 = (10 ^ 3) ^ 100 := by rw [← pow_mul]
+        _ ≤ (2 ^ 10) ^ 100 := by gcongr; norm_num
+        _ = 2 ^ 1000 := by rw [← pow_mul]
+        _ ≤ 2 ^ 1069 := pow_le_pow_right₀ (by norm_num) (by norm_num)
+    have : (42:ℝ) / 2 ^ 6 ≤ 1 := by norm_num
+    have h0 : (0:ℝ) ≤ 1 / 2 ^ 1069 := by positivity
+    nlinarith
+  have hτ100 : τ ≤ 1 / 100 := le_trans hτ300 (one_div_le_one_div_of_le (by norm_num) (by
+    calc (100:ℝ) = 10 ^ 2 := by norm_num
+      _ ≤ 10 ^ 300 := pow_le_pow_right₀ (by norm_num) (by norm_num)))
+  have hxabs : |X| = -X := abs_of_neg hX0
+  set raw := val (newRawTotal p d) with hraw
+  rw [abs_le] at hacc
+  rw [abs_lt] at hsnap
+  by_cases hrn : raw < 0
+  · -- the negative path proper
+    obtain ⟨n, hn1, hyn, hny, hnt⟩ := newTotal_neg_formula hp hd hpb hdl (by rw [hXdef]; exact hq) hrn
+    rw [← hraw] at hyn hny hnt
+    refine ⟨n, ?_⟩
+    have hqp := val_qp (F := F)
+    set P := 4 * val (qp : F) with hP
+    have hPpi : P = 2 * piV F := by rw [hP, hqp]; ring
+    have hP0 : 0 < P := by rw [hPpi]; linarith
+    have hP8 : P ≤ 8 := by rw [hPpi]; linarith
+    set a := -raw with ha
+    have ha0 : 0 < a := by rw [ha]; linarith
+    have hq0 : 0 ≤ a / P := div_nonneg (le_of_lt ha0) (le_of_lt hP0)
+    have hy := rnd_err (F := F) (a / P)
+    rw [abs_of_nonneg hq0, ← hτ, abs_le] at hy
+    have e53 : ∀ z : ℝ, z / 2 ^ 53 = z * ε := fun z => by rw [hε]; ring
+    rw [e53] at hy
+    have hyarg : -raw / (2 * piV F) = a / P := by rw [ha, hPpi]
+    rw [hyarg] at hyn hny
+    have hqP : a / P * P = a := div_mul_cancel₀ a (ne_of_gt hP0)
+    set W := (n : ℝ) * P with hW
+    have hWlo : a - (a * ε + P * τ) ≤ W := by
+      have h : a / P - (a / P * ε + τ) ≤ (n : ℝ) := by linarith [hy.1]
+      have := mul_le_mul_of_nonneg_right h (le_of_lt hP0)
+      have e : (a / P - (a / P * ε + τ)) * P = a / P * P - (a / P * P * ε + P * τ) := by ring
+      rw [e, hqP] at this; exact this
+    have hWhi : W ≤ a + a * ε + P * τ + P := by
+      have h : (n : ℝ) ≤ a / P + (a / P * ε + τ) + 1 := by linarith [hy.2]
+      have := mul_le_mul_of_nonneg_right h (le_of_lt hP0)
+      have e : (a / P + (a / P * ε + τ) + 1) * P = a / P * P + a / P * P * ε + P * τ + P := by ring
+      rw [e, hqP] at this; exact this
+    have hW0 : 0 ≤ W := mul_nonneg (Nat.cast_nonneg _) (le_of_lt hP0)
+    have hWeq : (n : ℝ) * 4 * val (qp : F) = W := by rw [hW, hP]; ring
+    rw [hWeq] at hnt
+    have hS := rnd_err (F := F) W
+    rw [abs_of_nonneg hW0, ← hτ, e53] at hS
+    have hr2 := rnd_err (F := F) (raw + rnd (F := F) W)
+    rw [← hτ, e53] at hr2
+    have hkey := neg_path_real (a := a) (P := P) (ε := ε) (τ := τ) (W := W) (S := rnd (F := F) W)
+      (z := raw + rnd (F := F) W) (r := rnd (F := F) (raw + rnd (F := F) W)) ha0 hP0 hP8 hε0
+      (by linarith [show (1:ℝ) / 10 ^ 15 ≤ 1 / 10 by norm_num])
+      hτ0 hτ100
+      hWlo hWhi hW0 hS (by rw [ha]; ring) hr2 (fun h => rnd_nonneg h)
+    rw [← hnt] at hkey
+    have hraw_eq : -a + W = raw + W := by rw [ha]; ring
+    rw [hraw_eq, abs_le] at hkey
+    -- a ≤ |x|(1 + 8ε) + 32τ
+    have hale : a ≤ |X| + |X| * (8 * ε) + 32 * τ := by rw [ha]; linarith [hacc.1, hxabs]
+    have hx8 : |X| * (8 * ε) ≤ |X| * (1 / 100) :=
+      mul_le_mul_of_nonneg_left (by linarith [show (8:ℝ) * (1 / 10 ^ 15) ≤ 1 / 100 by norm_num]) (abs_nonneg _)
+    have h5a : (5 * a + 40) * ε ≤ (6 * |X| + 46) * ε := by
+      apply mul_le_mul_of_nonneg_right _ (le_of_lt hε0)
+      have : 32 * τ ≤ 1 := by linarith
+      linarith
+    have e14 : (14 * |X| + 46) * (1 / 2 ^ 53) = |X| * (8 * ε) + (6 * |X| + 46) * ε := by rw [hε]; ring
+    have hgoal : X + (n : ℝ) * (4 * val (qp : F)) = X + W := by rw [hW, hP]
+    rw [hgoal, e14, abs_lt]
+    constructor <;> linarith [hkey.1, hkey.2, hsnap.1, hsnap.2, hacc.1, hacc.2]
+  · -- the raw total rounded to zero (|x| below the subnormal range): no turn is added
+    push Not at hrn
+    refine ⟨0, ?_⟩
+    have hnt : newTotal p d = newRawTotal p d := by
+      unfold newTotal
+      simp only
+      have : flt (newRawTotal p d) (zero : F) = false := by
+        rw [Bool.eq_false_iff]; intro h
+        have := (flt_spec hfraw fin_zero).mp h
+        rw [val_zero] at this; linarith
+      rw [this]; simp
+    rw [hnt, ← hraw] at hsnap
+    have e14 : (14 * |X| + 46) * (1 / 2 ^ 53) = |X| * (8 * ε) + (6 * |X| + 46) * ε := by rw [hε]; ring
+    have h6 : 0 ≤ (6 * |X| + 46) * ε := mul_nonneg (by positivity) (le_of_lt hε0)
+    simp only [Nat.cast_zero, zero_mul, add_zero]
+    rw [e14, abs_lt]
+    constructor <;> linarith [hsnap.1, hsnap.2, hacc.1, hacc.2]
+
 end Angle
 end GeonumModel
